@@ -13,8 +13,8 @@
      * with SOURCE_DATE_EPOCH or --buildtime the time stamp is not the clock's             (C18_buildtime_fixed)
      * writing over the result of the same run gives the same directory                   (C18_overwrite_complete,
                                                                 C18_rerun_same_output, C18_static_writes_commute)
-     * KNOWN FINDING: a template directory with names differing only in case               (C18_template_listing_refuted
-                                                                                           / _partial)
+     * the template lookup does not depend on how the template directory is listed        (C18_template_listing_free;
+       the unsorted loader before 16ec2bc is refuted: C18_template_listing_old_refuted / _old_partial)
      * tables regenerated on every run: every set / root_names / directory-listing occurrence in pydoctor's source is
        consumed in an order-free context (order_sources_checked), every writing open() truncates and the symlink is
        unlinked first (write_discipline_checked), no clock read reaches the output except the default build time
@@ -30,12 +30,10 @@ Import ListNotations.
 
 (* ------------------------------------------------------------------ obligations on the regenerated tables *)
 (* listings of pydoctor's OWN installed package (not of the project) that are iterated unsorted; reviewed by hand:
-   Template.fromdir feeds a dict keyed by lower-cased template name whose consumers write one file per key (see
-   C18_template_listing_partial / _refuted and C18_static_writes_commute); the other three produce the extension load order and two argparse `choices` lists.
-   They are exercised by the differential (the harness shuffles every listing) and named here so that any NEW
-   unsorted iteration breaks the lemma. *)
+   they produce the extension load order and two argparse `choices` lists. They are exercised by the differential
+   (the harness shuffles every listing) and named here so that any NEW unsorted iteration breaks the lemma. *)
 Definition reviewed_funcs : list N :=
-  [fn_Template_fromdir; fn_importlib_resources_contents; fn_get_themes; fn_get_supported_docformats].
+  [fn_importlib_resources_contents; fn_get_themes; fn_get_supported_docformats].
 Definition reviewed (s : site) : bool :=
   match s_src s, s_ctx s with
   | SrcListing, CtxIterate => existsb (N.eqb (s_func s)) reviewed_funcs
@@ -228,14 +226,22 @@ Theorem C18_static_writes_commute : forall ops1 ops2 d,
   same_dir (apply_ops ops1 d) (apply_ops ops2 d).
 Proof. exact writes_commute. Qed.
 
-(* KNOWN FINDING C18-template-case-collision: Template.fromdir iterates the template directory unsorted; two files of
-   ONE --template-dir whose names differ only in case collide in the case-insensitive lookup (first name kept, last
-   content wins), so which file is written, and with which bytes, depends on the listing order ... *)
-Theorem C18_template_listing_refuted :
+(* Template.fromdir as it is since 16ec2bc (sorted by name): the template lookup -- stored names, contents and dict
+   order -- is the same for every order in which the template directory is listed; no condition on letter case *)
+Theorem C18_template_listing_free :
+  forall (lower : text -> text) (pi1 pi2 : list tmpl -> list tmpl) files base,
+    perm_oracle pi1 -> perm_oracle pi2 -> NoDup (map fst files) ->
+    load_dir lower pi1 files base = load_dir lower pi2 files base.
+Proof. exact load_dir_order_free. Qed.
+
+(* before 16ec2bc (unsorted iterdir): two files of ONE --template-dir whose names differ only in case collide in the
+   case-insensitive lookup (first name kept, last content wins), so which file is written, and with which bytes,
+   depended on the listing order ... *)
+Theorem C18_template_listing_old_refuted :
   exists (files : list tmpl) (pi1 pi2 : list tmpl -> list tmpl),
     perm_oracle pi1 /\ perm_oracle pi2 /\ NoDup (map fst files) /\
-    ~ same_dir (apply_ops (static_ops (load_dir ascii_lower pi1 files [])) [])
-               (apply_ops (static_ops (load_dir ascii_lower pi2 files [])) []).
+    ~ same_dir (apply_ops (static_ops (load_dir_old ascii_lower pi1 files [])) [])
+               (apply_ops (static_ops (load_dir_old ascii_lower pi2 files [])) []).
 Proof.
   exists [([109; 46; 99; 115; 115]%N, 1%N); ([77; 46; 99; 115; 115]%N, 2%N)], (fun l => l), (@rev tmpl).
   split; [apply perm_oracle_id|]. split; [apply perm_oracle_rev|].
@@ -243,14 +249,12 @@ Proof.
   intros H. specialize (H [109; 46; 99; 115; 115]%N). vm_compute in H. discriminate.
 Qed.
 
-(* ... and not otherwise: when the names of the directory are distinct case-insensitively the lookup (as a map
-   from lower-cased name to stored name and content) is the same for every listing order; the writes that follow are
-   one per key and commute (C18_static_writes_commute) *)
-Theorem C18_template_listing_partial :
+(* ... and only then *)
+Theorem C18_template_listing_old_partial :
   forall (lower : text -> text) (pi1 pi2 : list tmpl -> list tmpl) files base,
     perm_oracle pi1 -> perm_oracle pi2 -> NoDup (map (fun t : tmpl => lower (fst t)) files) ->
-    forall k, tl_lookup k (load_dir lower pi1 files base) = tl_lookup k (load_dir lower pi2 files base).
-Proof. exact load_dir_order_free. Qed.
+    forall k, tl_lookup k (load_dir_old lower pi1 files base) = tl_lookup k (load_dir_old lower pi2 files base).
+Proof. exact load_dir_old_order_free. Qed.
 
 (* the hypotheses are needed: a stale file survives; a symlink left where a page is now written is written THROUGH *)
 Theorem C18_overwrite_stale_prev_refuted :
